@@ -1,0 +1,56 @@
+//go:build verif
+
+package main
+
+// C32 driver:
+//
+//	cleanup <indexDir> <ids|-> <nowUnixNano> <shardMerging 0|1>    runs cleanup(indexDir, ids, now, shardMerging)
+//	scan <indexDir>                                                 getShards(indexDir), getShards(.trash), getTombstonedRepos(indexDir)
+
+import (
+	"fmt"
+	"path/filepath"
+	"sort"
+	"strconv"
+	"strings"
+	"time"
+)
+
+func verifC32(f []string) string {
+	switch {
+	case len(f) == 5 && f[0] == "cleanup":
+		now, err := strconv.ParseInt(f[3], 10, 64)
+		if err != nil {
+			return "ERR now"
+		}
+		cleanup(f[1], verifIDs(f[2]), time.Unix(0, now), f[4] == "1")
+		return "ok"
+	case len(f) == 2 && f[0] == "scan":
+		showShards := func(m map[uint32][]shard) string {
+			var ids []uint32
+			for id := range m {
+				ids = append(ids, id)
+			}
+			sort.Slice(ids, func(i, j int) bool { return ids[i] < ids[j] })
+			var parts []string
+			for _, id := range ids {
+				var ss []string
+				for _, s := range m[id] {
+					ss = append(ss, fmt.Sprintf("%s:%s:%d", filepath.Base(s.Path), s.RepoName, s.ModTime.UnixNano()))
+				}
+				parts = append(parts, fmt.Sprintf("%d=%s", id, strings.Join(ss, ",")))
+			}
+			if len(parts) == 0 {
+				return "-"
+			}
+			return strings.Join(parts, ";")
+		}
+		tomb := getTombstonedRepos(f[1])
+		tm := map[uint32][]shard{}
+		for id, s := range tomb {
+			tm[id] = []shard{s}
+		}
+		return fmt.Sprintf("index=%s trash=%s tomb=%s", showShards(getShards(f[1])), showShards(getShards(filepath.Join(f[1], ".trash"))), showShards(tm))
+	}
+	return "ERR usage"
+}
